@@ -626,6 +626,10 @@ type FCase struct {
 	// Churn: other listener names, registered before the observed one, are removed and registered
 	// again while the events are emitted (extensions coming and going).
 	Churn bool `json:"churn,omitempty"`
+	// Self (with Churn): the observed listener's own registration for 'deleted' events is removed
+	// and made again while events flow (it stays registered for 'stored' throughout): deleted
+	// events may then be missed, but never doubled, and it is still never entered twice at once.
+	Self bool `json:"self,omitempty"`
 }
 
 var propFirst = hx.Prop[FCase]{
@@ -637,7 +641,7 @@ var propFirst = hx.Prop[FCase]{
 	Quick: 40, Thorough: 400,
 	Gen: func(t *rapid.T) FCase {
 		return FCase{Emitters: rapid.IntRange(2, 8).Draw(t, "emitters"), Rounds: rapid.IntRange(20, 60).Draw(t, "rounds"), Both: rapid.Bool().Draw(t, "both"),
-			Work: rapid.SampledFrom([]int{0, 1, 5}).Draw(t, "work"), Extra: rapid.IntRange(0, 3).Draw(t, "extra"), Churn: rapid.IntRange(0, 2).Draw(t, "churn") == 0}
+			Work: rapid.SampledFrom([]int{0, 1, 5}).Draw(t, "work"), Extra: rapid.IntRange(0, 3).Draw(t, "extra"), Churn: rapid.IntRange(0, 2).Draw(t, "churn") == 0, Self: rapid.Bool().Draw(t, "self")}
 	},
 	Run: runFirst,
 }
@@ -661,6 +665,9 @@ func runFirst(c FCase) *hx.Outcome {
 			for i := 0; i < c.Work; i++ {
 				runtime.Gosched()
 			}
+			if c.Churn && c.Self {
+				time.Sleep(30 * time.Microsecond) // long enough for a registration change to fall into a call
+			}
 			mu.Lock()
 			inside[name]--
 			mu.Unlock()
@@ -677,7 +684,9 @@ func runFirst(c FCase) *hx.Outcome {
 			}
 		}
 		host.Events.AfterMessageStored.AddListener("probe", func(m event.MessageMetadata) { enter("probe", "stored:"+m.ID) })
-		host.Events.AfterMessageDeleted.AddListener(delName, func(m event.MessageMetadata) { enter(delName, "deleted:"+m.ID) })
+		onDeleted := func(m event.MessageMetadata) { enter(delName, "deleted:"+m.ID) }
+		host.Events.AfterMessageDeleted.AddListener(delName, onDeleted)
+		self := c.Churn && c.Self
 		var ready, wg sync.WaitGroup
 		var goFlag atomic.Bool
 		var want [][]string
@@ -724,6 +733,10 @@ func runFirst(c FCase) *hx.Outcome {
 				host.Events.AfterMessageDeleted.RemoveListener(name)
 				host.Events.AfterMessageStored.AddListener(name, nop)
 				host.Events.AfterMessageDeleted.AddListener(name, nop)
+				if self {
+					host.Events.AfterMessageDeleted.RemoveListener(delName)
+					host.Events.AfterMessageDeleted.AddListener(delName, onDeleted)
+				}
 			}
 		}()
 		goFlag.Store(true)
@@ -734,17 +747,40 @@ func runFirst(c FCase) *hx.Outcome {
 		for _, s := range want {
 			total += len(s)
 		}
+		awaited := total
+		if self {
+			awaited = 0
+			for _, sq := range want {
+				for _, tag := range sq {
+					if strings.HasPrefix(tag, "stored:") {
+						awaited++
+					}
+				}
+			}
+		}
 		deadline := time.Now().Add(10 * time.Second)
 		for {
 			mu.Lock()
 			n := len(got)
+			if self {
+				// deleted events may legitimately be missing: wait for the stored ones
+				n = 0
+				for _, g := range got {
+					if strings.HasPrefix(g, "stored:") {
+						n++
+					}
+				}
+			}
 			mu.Unlock()
-			if n >= total || time.Now().After(deadline) {
+			if n >= awaited || time.Now().After(deadline) {
 				break
 			}
 			time.Sleep(200 * time.Microsecond)
 		}
 		time.Sleep(time.Millisecond) // grace for duplicates
+		if self {
+			time.Sleep(5 * time.Millisecond) // and for deleted events still on their way
+		}
 		mu.Lock()
 		if reentered != "" {
 			o.Failf(pid+":listener-reentered", "round %d, %d emitters on a fresh Host: %s", round, c.Emitters, reentered)
@@ -757,6 +793,9 @@ func runFirst(c FCase) *hx.Outcome {
 		}
 		for _, seq := range want {
 			for i, tag := range seq {
+				if self && strings.HasPrefix(tag, "deleted:") && count[tag] == 0 {
+					continue // emitted while the listener was not registered
+				}
 				if count[tag] != 1 {
 					o.Failf(pid+":event-accounting", "round %d, %d emitters on a fresh Host: event %s arrived %d times (all: %v)", round, c.Emitters, tag, count[tag], got)
 				} else if i > 0 && count[seq[i-1]] == 1 && c.Both && pos[seq[i-1]] > pos[tag] {
@@ -764,7 +803,7 @@ func runFirst(c FCase) *hx.Outcome {
 				}
 			}
 		}
-		if len(got) != total && !o.Failed() {
+		if len(got) != total && !o.Failed() && !self {
 			o.Failf(pid+":event-accounting", "round %d: %d events arrived, %d emitted: %v", round, len(got), total, got)
 		}
 		mu.Unlock()
